@@ -523,11 +523,20 @@ func badTexts(t reflect.Type) []string {
 		}
 		return []string{"", "-1", "12x", " 5", "1.5", over, "99999999999999999999999"}
 	case reflect.Float32:
-		return []string{"", "abc", "1.2.3", "1e", " 1", "3.5e38", "-3.5e38", "1e39"}
+		// just outside float32 but inside float64, both signs, and far outside
+		return []string{"", "abc", "1.2.3", "1e", " 1", "3.5e38", "-3.5e38", "1e39", "-1e39", "1e40", "-1e300", "1e309"}
 	case reflect.Float64:
-		return []string{"", "abc", "1.2.3", "1e", " 1", "1.8e308", "-1.8e308", "1e400"}
-	case reflect.Complex64, reflect.Complex128:
-		return []string{"", "abc", "1+2j", "(1+2i", "1+2i)", "1++2i"}
+		return []string{"", "abc", "1.2.3", "1e", " 1", "1.8e308", "-1.8e308", "1e309", "-1e309", "1e400"}
+	case reflect.Complex64:
+		// one part just outside float32 range (inside float64), real or
+		// imaginary, both signs; a narrowing conversion would give +-Inf
+		return []string{"", "abc", "1+2j", "(1+2i", "1+2i)", "1++2i",
+			"3.5e38+2i", "-3.5e38+2i", "1e39+2i", "-1e39-2i", "1e40+2i", "-1e40+2i", "1e300+2i", "(1e40+2i)",
+			"1+3.5e38i", "1-3.5e38i", "1-4e38i", "1+1e39i", "1-1e39i", "1+1e40i", "1-1e40i", "1+1e300i", "(1-1e40i)",
+			"1e40", "-1e39", "1e40i", "-3.5e38i", "1e309+2i", "1+1e400i"}
+	case reflect.Complex128:
+		return []string{"", "abc", "1+2j", "(1+2i", "1+2i)", "1++2i",
+			"1e309+2i", "-1e309+2i", "1.8e308+2i", "1e400+2i", "1+1e309i", "1-1e309i", "1-1.8e308i", "1+1e400i", "(1e309-2i)", "1e309", "-1e400i"}
 	case reflect.Slice:
 		out := []string{`"abc`, `a,"b`, `'a'`, "a,'b'", "`abc"}
 		if t.Elem().Kind() != reflect.String {
